@@ -5,13 +5,13 @@ import RxnModel.Model.RunnerProc
 
 Property theorems only. Model: `Model/JobFsm.lean` (the job's serial task queue, registry, liveness, asynchronous
 start, checkpoint ticker, the store's pending snapshot, the operators' in-flight checkpoint record), helper lemmas:
-`Proofs/JobFsm.lean`. `Reachable s` = `s` is the state after some action sequence from some initial configuration, so
-every theorem quantifies over all histories (registrations, deregistrations, heartbeat expiries, deployment results,
-ticks, acknowledgements and barriers in any order, stale and duplicate messages included).
-
-`Reachable` only contains schedules in which a checkpoint ticker callback runs as ONE step (`.tick`). The code does not
-enforce that (the callback is not a task of the job's queue: finding D57, `tick_interleaving_counterexample`, stated
-over `ReachableAny`, which also contains the callback's three pieces `.tickA/.tickB/.tickC` interleaved with tasks).
+`Proofs/JobFsm.lean`. `ReachableAll s` = `s` is the state after SOME action sequence from some initial configuration:
+registrations, deregistrations, heartbeat expiries, deployment results, ticks, savepoint requests, acknowledgements,
+publications, barriers and events in any order, stale and duplicate messages included, and with ticker callbacks and
+savepoint requests also run in their pieces (`.tickA/.tickB/.tickC`, `.spA`) with tasks in between, as the code allows
+(neither is a task of the job's queue: finding D57). Theorems are stated over `ReachableAll` unless their name ends in
+`_partial`. `ReachableSerial` = the schedules in which every callback/request runs as ONE step; the statements D57
+breaks (`tick_interleaving_counterexample`) are proved for those only and carry `_partial` with that exclusion.
 
 "New checkpoints complete again" is a liveness claim. It is proved as safety (`no_stale_inflight`,
 `pending_belongs_to_assembly`, `record_within_sources`: nothing of a previous deployment is left that could block a
@@ -26,14 +26,14 @@ open Rxn Rxn.JobFsm
 /-- Every `Deploy` goes to exactly `WorkerCount` distinct operators and `WorkerCount` distinct source runners, which
 are the job's assembly, and each of them is registered with an unexpired heartbeat at the end of the task that
 decided the deployment. -/
-theorem deploy_only_full_live {s : St} (hr : Reachable s) (a : Act) (dep : Dep)
+theorem deploy_only_full_live {s : St} (hr : ReachableAll s) (a : Act) (dep : Dep)
     (hd : (step s a).2.dep? = some dep) :
     dep.ops = (step s a).1.asmOps ∧ dep.srs = (step s a).1.asmSrs ∧
     dep.ops.length = s.w ∧ dep.srs.length = s.w ∧ dep.ops.Nodup ∧ dep.srs.Nodup ∧
     (∀ i ∈ dep.ops, i ∈ (step s a).1.ops ∧ alive (step s a).1 i) ∧
     (∀ i ∈ dep.srs, i ∈ (step s a).1.srs ∧ alive (step s a).1 i) ∧
     (step s a).1.status = .starting :=
-  step_dep (reachable_inv hr) a dep hd
+  step_dep (reachableAll_inv hr).1 a dep hd
 
 /-- a heartbeat counts as expired exactly when it is more than the deadline old (the comparison is regenerated from
 `LivenessTracker.Purge` on every run) -/
@@ -46,41 +46,42 @@ theorem heartbeat_expiry_exact (d now hb : Nat) : expired d now hb = true ↔ hb
 
 /-- A Running job always has every member of its assembly registered, and its checkpoint ticker is active exactly
 while it is Running. -/
-theorem running_is_healthy {s : St} (hr : Reachable s) :
+theorem running_is_healthy {s : St} (hr : ReachableAll s) :
     (s.status = .running → healthy s = true) ∧ (s.ticker = true ↔ s.status = .running) :=
-  ⟨(reachable_inv hr).runHealthy, (reachable_inv hr).tickRun⟩
+  ⟨(reachableAll_inv hr).1.runHealthy, (reachableAll_inv hr).1.tickRun⟩
 
 /-- After any task that changes the registry while the job is Running: either every member of the assembly is still
 registered (after purging expired heartbeats) and the job keeps Running, or the job is Paused and the ticker stopped. -/
-theorem unhealthy_pauses {s : St} (hr : Reachable s) (h : s.status = .running) (a : Act) (hm : a.membership = true) :
+theorem unhealthy_pauses {s : St} (hr : ReachableAll s) (h : s.status = .running) (a : Act) (hm : a.membership = true) :
     ((step s a).1.status = .running ∧ healthy (step s a).1 = true ∧ (step s a).1.ticker = true) ∨
     ((step s a).1.status = .paused ∧ healthy (step s a).1 = false ∧ (step s a).1.ticker = false) :=
-  membership_running (reachable_inv hr) h a hm
+  membership_running (reachableAll_inv hr).1 h a hm
 
 /-! ## redeployment starts from the newest published checkpoint -/
 
 /-- Every `Deploy` carries the store's current (newest published) checkpoint, and that is also what the start
 goroutine hands to the source splitter when the deployment succeeds. -/
-theorem redeploy_from_latest {s : St} (hr : Reachable s) (a : Act) (dep : Dep)
+theorem redeploy_from_latest {s : St} (hr : ReachableAll s) (a : Act) (dep : Dep)
     (hd : (step s a).2.dep? = some dep) :
     dep.ck = s.store.current ∧ dep.ck = (step s a).1.store.current ∧ (step s a).1.startCk = dep.ck :=
-  step_dep_ck (reachable_inv hr) a dep hd
+  step_dep_ck (reachableAll_inv hr).1 a dep hd
 
-/-- while a deployment is in flight the store has no pending snapshot (`RegisterSourceSplitter` abandoned it and the
-ticker is stopped) -/
-theorem start_uses_latest {s : St} (hr : Reachable s) (h : s.status = .starting) : s.store.pending = none :=
-  (reachable_inv hr).startClean h
+/-- While a deployment is in flight the store has no pending snapshot (`RegisterSourceSplitter` abandoned it and the
+ticker is stopped). Excluded (D57): schedules in which a ticker callback or savepoint request that read the previous
+assembly creates its snapshot after the new deployment was decided. -/
+theorem start_uses_latest_partial {s : St} (hr : ReachableSerial s) (h : s.status = .starting) : s.store.pending = none :=
+  (reachable_inv hr).startClean (reachableSerial_ser hr) h
 
 /-- Every member of one deployment restores the SAME checkpoint: the id the deciding task read (`dep.ck`, carried by
 every operator's Deploy request) is what the source splitter — and through it every source runner — is started from
 when the deployment succeeds, whatever happens in between (acknowledgements, a snapshot file being written and
 published, ticks, membership changes that do not decide a new deployment). -/
-theorem members_restore_same_checkpoint {s : St} (_hr : Reachable s) (a : Act) (dep : Dep)
+theorem members_restore_same_checkpoint {s : St} (_hr : ReachableAll s) (a : Act) (dep : Dep)
     (hd : (step s a).2.dep? = some dep) (acts : List Act)
     (hq : ∀ o ∈ (run (step s a).1 acts).2, o.dep? = none)
     (hst : (run (step s a).1 acts).1.status = .starting) :
     ∃ st asg sp sr sb, (step (run (step s a).1 acts).1 .deployOk).2 = .started st dep.ck asg sp sr sb := by
-  have h1 : (step s a).1.startCk = dep.ck := (step_dep_ck (reachable_inv _hr) a dep hd).2.2
+  have h1 : (step s a).1.startCk = dep.ck := (step_dep_ck (reachableAll_inv _hr).1 a dep hd).2.2
   have h2 := run_startCk (step s a).1 acts hq
   generalize (run (step s a).1 acts).1 = t at hst h2
   have h3 : t.startCk = dep.ck := h2.trans h1
@@ -90,16 +91,16 @@ theorem members_restore_same_checkpoint {s : St} (_hr : Reachable s) (a : Act) (
 /-- A completed snapshot whose file has been written is always published: the guard of the model's `publish` action
 (`canPublish`: the id has been reached by the counter and lies below a pending snapshot's id) holds for every snapshot
 being written in every reachable state, so it never changes what the action does. -/
-theorem publish_always_enabled {s : St} (hr : Reachable s) (n : Nat) (hn : n ∈ s.store.writing) :
+theorem publish_always_enabled {s : St} (hr : ReachableAll s) (n : Nat) (hn : n ∈ s.store.writing) :
     (∃ l, (step s (.publish n)).2 = .published n (pubCurrent s.store.current n) l) ∧
     ∃ c, (step s (.publish n)).1.store.current = some c ∧ n ≤ c := by
-  have hc := canPublish_of_writeOk (reachable_writeOk hr) n hn
+  have hc := canPublish_of_writeOk (reachableAll_inv hr).2 n hn
   simp only [step, hc, if_true]
   obtain ⟨c, h1, h2, _⟩ := pubCurrent_ge s.store.current n
   exact ⟨⟨_, rfl⟩, c, h1, h2⟩
 
 /-- the current checkpoint id never decreases (only the publication of a written snapshot changes it, and a newer one stays) -/
-theorem current_monotone {s : St} (hr : Reachable s) (a : Act) (c : Nat) (hc : s.store.current = some c) :
+theorem current_monotone {s : St} (hr : ReachableAll s) (a : Act) (c : Nat) (hc : s.store.current = some c) :
     ∃ c', (step s a).1.store.current = some c' ∧ c ≤ c' :=
   step_current_mono s a c hc
 
@@ -107,31 +108,42 @@ theorem current_monotone {s : St} (hr : Reachable s) (a : Act) (c : Nat) (hc : s
 with unexpired heartbeats — including nodes that halted without deregistering. (This is why a job can issue a burst
 of `Deploy` calls to the reachable members of an assembly that contains a dead node: the burst ends when the dead
 node's heartbeat expires. Observed by the C01 cluster as "start attempts failing without an injected fault".) -/
-theorem failed_start_retries_immediately {s : St} (_hr : Reachable s) (h : s.status = .starting) (k : Nat) :
+theorem failed_start_retries_immediately {s : St} (_hr : ReachableAll s) (h : s.status = .starting) (k : Nat) :
     (step s (.deployFail k)).1.status =
       if (purge s).srs.length < s.w || (purge s).ops.length < s.w then Status.paused else Status.starting :=
   deployFail_status h k
 
 /-! ## nothing of the previous deployment survives a (re)deploy -/
 
-/-- When a deployment succeeds the store has no pending snapshot and no operator of the assembly has an in-flight
-checkpoint record; every operator of the assembly expects barriers from exactly the assembly's source runners. (The
-report printed by the harness after each deployment is this statement evaluated on the real Job and Operators.) -/
-theorem no_stale_inflight {s : St} (hr : Reachable s) (h : s.status = .starting) :
+/-- In every schedule: when a deployment succeeds no operator of the assembly has an in-flight checkpoint record, every
+one is deployed and expects barriers from exactly the assembly's source runners, and the store is not touched. -/
+theorem no_stale_records_after_deploy {s : St} (_hr : ReachableAll s) (h : s.status = .starting) :
+    (step s .deployOk).1.store = s.store ∧
+    ∀ i ∈ (step s .deployOk).1.asmOps,
+      ((step s .deployOk).1.procs i).inflight = none ∧ ((step s .deployOk).1.procs i).deployed = true ∧
+      ((step s .deployOk).1.procs i).srcs = (step s .deployOk).1.asmSrs := by
+  obtain ⟨a, b, _⟩ := deployOk_frame h
+  exact ⟨a, fun i hi => ⟨(b i hi).1, (b i hi).2.1, (b i hi).2.2.1⟩⟩
+
+/-- When a deployment succeeds the store moreover has no pending snapshot, so the stale report printed by the harness
+after each deployment (this statement evaluated on the real Job and Operators) is clean. Excluded (D57): schedules with
+a ticker callback or savepoint request run in pieces across the decision of the deployment
+(`tick_interleaving_counterexample`: there the pending snapshot of the previous assembly survives). -/
+theorem no_stale_inflight_partial {s : St} (hr : ReachableSerial s) (h : s.status = .starting) :
     (step s .deployOk).1.store.pending = none ∧
     (∀ i ∈ (step s .deployOk).1.asmOps,
       ((step s .deployOk).1.procs i).inflight = none ∧ ((step s .deployOk).1.procs i).deployed = true ∧
       ((step s .deployOk).1.procs i).srcs = (step s .deployOk).1.asmSrs) ∧
     ∃ st, (step s .deployOk).2 = .started st s.startCk s.asmSrs false []
       (s.asmOps.filter fun i => !(s.procs i).batch.isEmpty) := by
-  obtain ⟨a, b, c⟩ := deployOk_clean (reachable_inv hr) h
+  obtain ⟨a, b, c⟩ := deployOk_clean (reachable_inv hr) (reachableSerial_ser hr) h
   exact ⟨a, fun i hi => ⟨(b i hi).1, (b i hi).2.1, (b i hi).2.2.1⟩, c⟩
 
 /-
 "Redeploys every member from the latest completed checkpoint" needs more than the two facts above: no effect of the
 previous deployment may survive in a surviving worker. The full statement
 
-    theorem no_stale_effects (hr : Reachable s) (h : s.status = .starting) :
+    theorem no_stale_effects (hr : ReachableAll s) (h : s.status = .starting) :
         ∀ i ∈ (step s .deployOk).1.asmOps, ((step s .deployOk).1.procs i).batch = []
 
 is FALSE for the code as it is (finding D45, `stale_batch_counterexample`): `HandleDeploy` does not touch the
@@ -143,12 +155,12 @@ the statement with the exact excluded condition: an operator whose batcher is em
 /-- `HandleDeploy` leaves the event batcher exactly as it was; in particular an operator that had nothing queued (every
 new worker, and a surviving operator whose batch had been flushed) starts the deployment with nothing queued.
 Excluded: a surviving operator with queued events at the moment of the redeploy (D45). -/
-theorem no_stale_effects_partial {s : St} (hr : Reachable s) (h : s.status = .starting) :
+theorem no_stale_effects_partial {s : St} (_hr : ReachableAll s) (h : s.status = .starting) :
     ∀ i ∈ (step s .deployOk).1.asmOps,
       ((step s .deployOk).1.procs i).batch = (s.procs i).batch ∧
       ((s.procs i).batch = [] → ((step s .deployOk).1.procs i).batch = []) := by
   intro i hi
-  have := ((deployOk_clean (reachable_inv hr) h).2.1 i hi).2.2.2
+  have := ((deployOk_frame h).2.1 i hi).2.2.2
   exact ⟨this, fun he => this.trans he⟩
 
 /-- the history of D45: an event of the first deployment is still queued at operator 0 when source runner 3 is
@@ -157,7 +169,7 @@ def staleBatchTrace : List Act :=
   [.regO 0, .regO 1, .regS 2, .regS 3, .deployOk, .ev 0 2 7, .deregS 3, .regS 4, .deployOk]
 
 theorem stale_batch_counterexample :
-    Reachable (run (init 2 5 0 2) staleBatchTrace).1 ∧
+    ReachableSerial (run (init 2 5 0 2) staleBatchTrace).1 ∧
     (run (init 2 5 0 2) staleBatchTrace).1.status = .running ∧
     ((run (init 2 5 0 2) staleBatchTrace).1.procs 0).batch = [(7, 1)] ∧
     ((run (init 2 5 0 2) staleBatchTrace).1.procs 0).epoch = 2 ∧
@@ -167,41 +179,47 @@ theorem stale_batch_counterexample :
 /-- "Surviving workers keep processing", operator side: right after a successful (re)deploy no operator of the assembly
 turns an event away or parks its sender — whatever was being aligned before is gone. (Source runners are not modelled:
 D39, D48.) -/
-theorem operators_accept_events_after_deploy {s : St} (hr : Reachable s) (h : s.status = .starting)
+theorem operators_accept_events_after_deploy {s : St} (hr : ReachableAll s) (h : s.status = .starting)
     (i sr tag : Nat) (hi : i ∈ (step s .deployOk).1.asmOps) :
     (step (step s .deployOk).1 (.ev i sr tag)).2 ≠ .barBlocked ∧
     (step (step s .deployOk).1 (.ev i sr tag)).2 ≠ .barNotReady := by
-  obtain ⟨hin, hdep, _⟩ := (no_stale_inflight hr h).2.1 i hi
+  obtain ⟨hin, hdep, _⟩ := (no_stale_records_after_deploy hr h).2 i hi
   generalize (step s .deployOk).1 = s' at hin hdep
   show (event s' i sr tag).2 ≠ .barBlocked ∧ (event s' i sr tag).2 ≠ .barNotReady
   unfold event
   simp only [hdep, hin, parked, Bool.not_true, Bool.false_eq_true, if_false]
   split <;> simp
 
-/-- a pending snapshot always waits for the members of the job's current assembly -/
-theorem pending_belongs_to_assembly {s : St} (hr : Reachable s) (p : Pending) (hp : s.store.pending = some p) :
-    p.expOps = s.asmOps ∧ p.expSrs = s.asmSrs ∧ p.id = s.store.counter :=
-  ⟨((reachable_inv hr).pendAsm p hp).1, ((reachable_inv hr).pendAsm p hp).2, ((reachable_inv hr).pendId p hp).1⟩
+/-- A pending snapshot waits for the members of the job's current assembly. Excluded (D57): schedules with a ticker
+callback or savepoint request run in pieces (`tick_interleaving_counterexample`: pending for [0,1] on assembly [0,4]).
+In every schedule its id is the counter's (`pending_id_is_counter`). -/
+theorem pending_belongs_to_assembly_partial {s : St} (hr : ReachableSerial s) (p : Pending)
+    (hp : s.store.pending = some p) : p.expOps = s.asmOps ∧ p.expSrs = s.asmSrs :=
+  (reachable_inv hr).pendAsm (reachableSerial_ser hr) p hp
+
+theorem pending_id_is_counter {s : St} (hr : ReachableAll s) (p : Pending) (hp : s.store.pending = some p) :
+    p.id = s.store.counter ∧ ∀ c, s.store.current = some c → c < p.id :=
+  (reachableAll_inv hr).1.pendId p hp
 
 /-- an operator's in-flight record only waits for source runners of its current deployment -/
-theorem record_within_sources {s : St} (hr : Reachable s) (i rid : Nat) (waiting : List Nat)
+theorem record_within_sources {s : St} (hr : ReachableAll s) (i rid : Nat) (waiting : List Nat)
     (h : (s.procs i).inflight = some (rid, waiting)) : ∀ x ∈ waiting, x ∈ (s.procs i).srcs :=
-  (reachable_inv hr).recSrc i rid waiting h
+  (reachableAll_inv hr).1.recSrc i rid waiting h
 
 /-! ## checkpointing resumes (bounded progress) -/
 
 /-
 "After such a recovery new checkpoints complete again" as bounded progress would be
 
-    theorem checkpoint_progress (hr : Reachable s) (hrun : s.status = .running) (hp : s.store.pending = none) (hw : 0 < s.w) :
+    theorem checkpoint_progress (hr : ReachableAll s) (hrun : s.status = .running) (hp : s.store.pending = none) (hw : 0 < s.w) :
         (run s (progressActs s)).1.store.current = some (s.store.counter + 1)
 
 That is FALSE for the code as it is (finding D56, `checkpoint_progress_counterexample`): `handleCheckpointBarrier`
 creates the alignment record from the first barrier it sees, whatever its id, and clears it only after an accepted
 acknowledgement. One barrier that is not the job's pending checkpoint (a runner loop of the previous deployment still
 running — D39/D48 —, a late delivery) leaves a record that every later barrier mismatches (and behind which its sender
-parks); nothing but the next redeploy removes it. `no_stale_inflight` gives the hypothesis `hrec` below only at the
-instant of the deploy; it is NOT stable under the stale messages `Reachable` allows. What is proved is the statement
+parks); nothing but the next redeploy removes it. `no_stale_records_after_deploy` gives the hypothesis `hrec` below only at the
+instant of the deploy; it is NOT stable under the stale messages the schedules allow, and a stale barrier arriving in the middle of the round is not in this theorem's quantifier either (the round is the fixed sequence `progressActs`). What is proved is the statement
 with the exact excluded condition: no operator of the assembly holds an alignment record when the round starts.
 -/
 
@@ -209,13 +227,39 @@ with the exact excluded condition: no operator of the assembly holds an alignmen
 record at the assembly's operators, one round of the current assembly — the tick, the acknowledgement of every source
 runner, every source runner's barrier at every operator — publishes checkpoint `counter + 1`, and the job is again in
 such a state. -/
-theorem checkpoint_progress_partial {s : St} (hr : Reachable s) (hrun : s.status = .running) (hp : s.store.pending = none)
+theorem checkpoint_progress_partial {s : St} (hr : ReachableAll s) (hrun : s.status = .running) (hp : s.store.pending = none)
     (hrec : ∀ i ∈ s.asmOps, (s.procs i).inflight = none) (hw : 0 < s.w) :
     (run s (progressActs s)).1.store.current = some (s.store.counter + 1) ∧
     (run s (progressActs s)).1.store.pending = none ∧
     (run s (progressActs s)).1.status = .running ∧ (run s (progressActs s)).1.ticker = true ∧
     (∀ i ∈ s.asmOps, ((run s (progressActs s)).1.procs i).inflight = none) :=
-  progress (reachable_inv hr) hrun hp hrec hw
+  progress (reachableAll_inv hr).1 hrun hp hrec hw
+
+/-- "After such a recovery new checkpoints complete again", one named statement: from ANY state reached by a schedule
+with serial ticker callbacks (whatever failures, stale messages, half-aligned checkpoints and pending snapshots came
+before) in which a deployment is in flight, if the deployment succeeds and the job is Running afterwards, the next
+round of the new assembly — tick, every runner's acknowledgement, every barrier, the file write — publishes checkpoint
+`counter + 1`. Exclusions, exactly: D57 (the callback/savepoint pieces interleaved with the decision of the deployment,
+which can leave a pending snapshot: `ReachableSerial`) and D56/D48 (a message that is not the pending checkpoint
+arriving DURING the round: the round is the uninterrupted `progressActs`). -/
+theorem recovery_then_progress_partial {s : St} (hr : ReachableSerial s) (h : s.status = .starting)
+    (hrun : (step s .deployOk).1.status = .running) (hw : 0 < s.w) :
+    (run (step s .deployOk).1 (progressActs (step s .deployOk).1)).1.store.current = some ((step s .deployOk).1.store.counter + 1) ∧
+    (run (step s .deployOk).1 (progressActs (step s .deployOk).1)).1.store.pending = none ∧
+    (run (step s .deployOk).1 (progressActs (step s .deployOk).1)).1.status = .running := by
+  obtain ⟨hp, hrec, _⟩ := no_stale_inflight_partial hr h
+  have hr' : ReachableAll (step s .deployOk).1 := by
+    obtain ⟨w, d, c0, bmax, acts, e⟩ := reachableAll_of_serial hr
+    exact ⟨w, d, c0, bmax, acts ++ [.deployOk], by rw [run_fst_append, ← e]; rfl⟩
+  have hw' : 0 < (step s .deployOk).1.w := by
+    have : (step s .deployOk).1.w = s.w := by
+      simp only [step, h, ne_eq, not_true_eq_false, if_false]
+      unfold evaluate
+      rw [evalStatus_running (s := purge { s with procs := deployProcs s none, status := .running, ticker := true }) rfl]
+      split <;> rfl
+    omega
+  obtain ⟨a, b, c, _, _⟩ := checkpoint_progress_partial hr' hrun hp (fun i hi => (hrec i hi).1) hw'
+  exact ⟨a, b, c⟩
 
 /-- the history of D56: right after a deployment one barrier of an older checkpoint (id 7) reaches operator 0 -/
 def wedgeTrace : List Act := [.regO 0, .regS 1, .deployOk, .bar 0 1 7]
@@ -224,7 +268,7 @@ def wedgeTrace : List Act := [.regO 0, .regS 1, .deployOk, .bar 0 1 7]
 at the assembly's operator; the round of the current assembly publishes nothing, the next tick answers `retry`, and a
 second delivery of the whole round changes nothing: checkpointing does not resume. -/
 theorem checkpoint_progress_counterexample :
-    Reachable (run (init 1 5 0) wedgeTrace).1 ∧
+    ReachableSerial (run (init 1 5 0) wedgeTrace).1 ∧
     (run (init 1 5 0) wedgeTrace).1.status = .running ∧ (run (init 1 5 0) wedgeTrace).1.store.pending = none ∧
     ((run (init 1 5 0) wedgeTrace).1.procs 0).inflight = some (7, []) ∧
     (run (run (init 1 5 0) wedgeTrace).1 (progressActs (run (init 1 5 0) wedgeTrace).1)).1.store.current = none ∧
@@ -235,9 +279,10 @@ theorem checkpoint_progress_counterexample :
 
 /-! ## the ticker callback is not a task (finding D57) -/
 
-/-- `.tick` is the ticker callback run without interruption: its three pieces back to back -/
+/-- `.tick` is the ticker callback run without interruption: its three pieces back to back give the same state (up to
+the ghost flag that records that pieces were used) -/
 theorem tick_is_uninterrupted_callback (s : St) (h : s.tk = none) :
-    (run s [.tickA, .tickB, .tickC]).1 = (step s .tick).1 :=
+    { (run s [.tickA, .tickB, .tickC]).1 with ser := s.ser } = (step s .tick).1 :=
   tick_split s h
 
 /-- the history of D57: operator 1 deregisters and operator 4 takes its place while a ticker callback is between
@@ -245,14 +290,14 @@ reading `j.assembly` and `CreateCheckpoint` -/
 def tickRaceTrace : List Act :=
   [.regO 0, .regO 1, .regS 2, .regS 3, .deployOk, .tickA, .deregO 1, .regO 4, .tickB, .tickC, .deployOk]
 
-/-- D57: every theorem above is about schedules in which a ticker callback runs as one step (`Reachable`). The code
+/-- D57: the `_partial` theorems about the pending snapshot are about schedules in which a ticker callback runs as one step (`ReachableSerial`). The code
 does not enforce that: the callback runs on the clock's goroutine and reads `j.assembly` three times without
 synchronisation. If a pause and a new assembly fall inside it, the job ends up Running on assembly {0,4} with a pending
 snapshot that waits for operator 1 of the PREVIOUS assembly — created after the new deployment's
-`RegisterSourceSplitter` cleared the store — so `pending_belongs_to_assembly` and `start_uses_latest` fail, every
+`RegisterSourceSplitter` cleared the store — so `pending_belongs_to_assembly_partial`, `start_uses_latest_partial` and the first clause of `no_stale_inflight_partial` fail without the exclusion, every
 later tick answers `retry`, and no checkpoint completes until the next redeploy. -/
 theorem tick_interleaving_counterexample :
-    ReachableAny (run (init 2 5 0) tickRaceTrace).1 ∧
+    ReachableAll (run (init 2 5 0) tickRaceTrace).1 ∧
     (run (init 2 5 0) tickRaceTrace).1.status = .running ∧
     (run (init 2 5 0) tickRaceTrace).1.asmOps = [0, 4] ∧
     (run (init 2 5 0) tickRaceTrace).1.store.pending =
@@ -266,9 +311,9 @@ theorem tick_interleaving_counterexample :
 status check passes, operator 1 is lost and replaced, then it creates a savepoint snapshot for the previous assembly:
 the job runs on {0,4} with a pending snapshot waiting for operator 1 (ticks answer retry), exactly as in
 `tick_interleaving_counterexample`. As one step (`.savepoint`, serial schedules) it preserves every invariant
-(`reachable_inv` covers it). -/
+(it is a serial action). -/
 theorem savepoint_interleaving_counterexample :
-    ReachableAny (run (init 2 5 0) [.regO 0, .regO 1, .regS 2, .regS 3, .deployOk, .spA, .deregO 1, .regO 4, .tickB, .tickC, .deployOk]).1 ∧
+    ReachableAll (run (init 2 5 0) [.regO 0, .regO 1, .regS 2, .regS 3, .deployOk, .spA, .deregO 1, .regO 4, .tickB, .tickC, .deployOk]).1 ∧
     (run (init 2 5 0) [.regO 0, .regO 1, .regS 2, .regS 3, .deployOk, .spA, .deregO 1, .regO 4, .tickB, .tickC, .deployOk]).1.status = .running ∧
     (run (init 2 5 0) [.regO 0, .regO 1, .regS 2, .regS 3, .deployOk, .spA, .deregO 1, .regO 4, .tickB, .tickC, .deployOk]).1.asmOps = [0, 4] ∧
     (run (init 2 5 0) [.regO 0, .regO 1, .regS 2, .regS 3, .deployOk, .spA, .deregO 1, .regO 4, .tickB, .tickC, .deployOk]).1.store.pending =
@@ -294,6 +339,25 @@ an empty request queue has a free loop and acknowledges the request for the job'
 theorem runner_acks_after_redeploy_partial (s : RunnerProc.St) (hq : s.queue = none) (id : Nat) :
     (RunnerProc.step (RunnerProc.step (RunnerProc.step s .deploy).1 (.pend id)).1 (.start id)).2 = .acked id := by
   simp [RunnerProc.step, RunnerProc.take, hq]
+
+/-- What the job model assumes of a source runner, and what RunnerProc gives. In `progressActs` (and in every serial
+history that publishes) the job model needs of each assembly runner exactly one thing per checkpoint: after the tick's
+`StartCheckpoint id` it sends `ackS runner id` for the pending `id` (its barriers follow). RunnerProc guarantees it
+whenever the runner has a loop able to take the request and nothing is queued (`free > 0`, `queue = none`): the request
+for the job's pending id is acknowledged at once, with that id, and the runner is again in such a state — so the
+guarantee holds round after round, across redeploys that find the queue empty. The only ways out of that state are a
+loop stuck in a source read (`hold`: the runner is slow, not wrong) and D48's situation (a request queued at
+`HandleDeploy`), which `runner_dies_on_stale_request_counterexample` shows does break the job model's assumption. The
+two models are not composed into one transition system: this lemma is the interface between them. -/
+theorem runner_interface (r : RunnerProc.St) (hf : 0 < r.free) (hq : r.queue = none) (id : Nat) :
+    (RunnerProc.step (RunnerProc.step r (.pend id)).1 (.start id)).2 = .acked id ∧
+    0 < (RunnerProc.step (RunnerProc.step r (.pend id)).1 (.start id)).1.free ∧
+    (RunnerProc.step (RunnerProc.step r (.pend id)).1 (.start id)).1.queue = none ∧
+    0 < (RunnerProc.step (RunnerProc.step (RunnerProc.step r (.pend id)).1 (.start id)).1 .deploy).1.free ∧
+    (RunnerProc.step (RunnerProc.step (RunnerProc.step r (.pend id)).1 (.start id)).1 .deploy).1.queue = none := by
+  have hne : r.free ≠ 0 := by omega
+  simp [RunnerProc.step, RunnerProc.take, hq, hne]
+  omega
 
 /-! ## non-vacuity -/
 
